@@ -287,6 +287,16 @@ bool planGetsPastOp(const Plan &plan, int op);
 
 // Map a crash to a verdict of the property under check, if that property
 // covers it (see DESIGN.md: crash attribution).
+// Known finding C06-netlist-without-connections (see exec_circuit.cpp): no net of the circuit joins
+// two different cells.  Nets never change during a plan, so the plan's circuit decides.
+bool planNetlistWithoutConnections(const Plan &plan) {
+  if (plan.kind != "circuit" || plan.circuit.nets.empty()) return false;
+  for (auto &n : plan.circuit.nets)
+    for (size_t i = 1; i < n.cells.size(); ++i)
+      if (n.cells[i] != n.cells[0]) return false;
+  return true;
+}
+
 bool crashVerdict(const std::string &prop, const Plan &plan, const CrashInfo &ci, Verdict &v) {
   const CrashMarker &m = ci.marker;
   v.op = m.op;
@@ -299,10 +309,12 @@ bool crashVerdict(const std::string &prop, const Plan &plan, const CrashInfo &ci
     }
     return false;
   }
+  bool floatCast = ci.cls == "ubsan" && ci.headline.find("outside the range of representable values") != std::string::npos;
+  bool divergedSolve = floatCast && m.opKind == OP_GLOBAL && planNetlistWithoutConnections(plan);
   if (prop == "C07") {
     if (!m.dom07) return false;  // the op started outside the C07 domain
     v.prop = "C07";
-    v.clause = "crash-" + ci.cls;
+    v.clause = "crash-" + ci.cls + (divergedSolve ? "-float-cast-netlist-without-connections" : "");
     return true;
   }
   if (prop == "C08" && ci.cls == "tsan") {
@@ -318,7 +330,7 @@ bool crashVerdict(const std::string &prop, const Plan &plan, const CrashInfo &ci
   }
   if (prop == "C06" && m.dom06 && ci.cls == "ubsan" && (ci.headline.find("outside the range of representable values") != std::string::npos) && m.opKind == OP_GLOBAL) {
     v.prop = "C06";
-    v.clause = "non-finite-coordinate";
+    v.clause = divergedSolve ? "non-finite-coordinate-netlist-without-connections" : "non-finite-coordinate";
     return true;
   }
   if (prop == "C10" && plan.kind == "circuit" && m.op >= 0 && m.op < (int)plan.ops.size()) {
